@@ -622,6 +622,11 @@ func (fr *Frame) execInstr(b *ssa.BasicBlock, idx int, ins ssa.Instruction, st *
 	case *ssa.MakeChan:
 		r := fr.alloc(st)
 		fr.vals[ins] = &Val{T: ins.Type(), S: r}
+		// the capacity a channel was made with is a ghost attribute of the channel (chancap(ch) in contracts)
+		u.S.declareFun("chan_cap", []string{"Int"}, "Int")
+		if !fr.dry {
+			u.assert(implies(reach, eq(app("chan_cap", r), fr.termOf(fr.val(ins.Size)))))
+		}
 	case *ssa.SliceToArrayPointer, *ssa.MultiConvert:
 		fr.unsupported(ins, "conversion")
 		if v, ok := ins.(ssa.Value); ok {
